@@ -102,7 +102,7 @@ pub fn utf8_maybe(rng: &mut Rng) -> Vec<u8> {
 }
 
 pub const SIZES: &[usize] = &[0, 1, 2, 5, 124, 125, 126, 127, 128, 300];
-pub const SMALL_SIZES: &[usize] = &[0, 1, 2, 5, 60, 124, 125];
+pub const SMALL_SIZES: &[usize] = &[0, 1, 2, 5, 60, 124, 125, 126, 127];
 pub const BIG_SIZES: &[usize] =
     &[0, 1, 125, 126, 127, 4095, 4096, 4097, 65535, 65536, 65537, 70000];
 
@@ -262,8 +262,10 @@ pub fn gen_cfg(rng: &mut Rng, prof: Profile) -> CaseCfg {
         Profile::Backpressure => {
             // the maximum always holds the largest single frame of the profile (125 + 14 bytes)
             let w = *rng.pick(&[0usize, 1, 5, 20, 100]);
-            let m = match rng.below(4) {
+            let m = match rng.below(5) {
                 0 => None,
+                // exactly the largest frame of the profile for this role (127-byte payload, 16-bit length)
+                4 => Some(if client { 135 } else { 131 }),
                 1 => Some(140 + rng.below(4)),
                 2 => Some(150 + rng.below(60)),
                 _ => Some(w + 280),
